@@ -200,6 +200,14 @@ def install(rec):
                 # still truncate
                 rec.count("scheme", "exact", "truncating")
                 return
+            if str(mode) in SQUARED and cutoff not in (0.0, 0, None):
+                # the statement's premise is "no cutoff is applied": the modes that
+                # compress through squared (projector / environment) operators apply
+                # even the default 1e-10 to a squared, possibly ill conditioned
+                # spectrum, which can cost ~1e-3 on a cancelling network (seen once in
+                # five seeds) - only an exact zero cutoff is judged for them
+                rec.count("scheme", "exact", "truncating")
+                return
             if untruncating(self if res is not self else res, max_bond, cutoff, side, layers, co) or \
                     (max_bond is not None and max_bond >= float(s["D"]) ** (side * layers) and cutoff in (0.0, 1e-10)):
                 if not untruncating(res if hasattr(res, "tensor_map") else self, None, cutoff, side, layers, co) \
